@@ -109,6 +109,8 @@ FIXED = [
      'subsequence_search(q, S, dists_options=opts, max_dist=m).kbest_matches(2) left max_dist = best distance found (and use_c) in opts; a later distance_matrix(S, **opts) returned inf entries', None),
     ('F50', 'C20', 'fix: LocalConcurrences.kbest_matches(restart=True) did not restart on a full matrix',
      'lc = local_concurrences(s, None, ...); lc.kbest_matches(k=2) twice on the Python (non-compact) matrix: the second call returned the 3rd and 4th best matches', None),
+    ('F51', 'C20', 'fix: dba_loop(use_c=True) kept the memory order of a Fortran-ordered initial average',
+     'dba_loop(S, c=F-contiguous 2-D array, thr=None, use_c=True) returned a different barycenter than with the same values in C order (the copy made by repair F47 kept order K; found when the exactly F-contiguous container form was added)', None),
 ]
 
 OPEN = [
